@@ -302,6 +302,22 @@ def shard(arg, acc):
                          [("e", t, None) for t in ("pe1", "pf1", "pg1", "pa1", "c1")]
                     explore_texts(Sref, sch, P, plist, 3 if tier == "quick" else 4, acc, mid, d0, tier, A=Am)
                     acc.extra["mutual_import_explorations"] += 1
+                if nconc == 2 and not pre:
+                    # a NAMED slot of the abstract type (and of b): admission goes through another branch of the
+                    # slot search than for '*' slots, incl. for implementers that only an '%import' brings
+                    extra = [M.Sect("nm", "a", attribute="named_a")]
+                    if two:
+                        extra.append(M.Sect("nb", "b", attribute="named_b"))
+                    Sn = replace(Sref, items=tuple(Sref.items) + tuple(extra))
+                    xml_n = M.render(Sn)
+                    sch_n = H.load_schema(xml_n)
+                    mid_n = dict(mid, schema=xml_n)
+                    tn = [t.name for t in Sn.types] + ["pa1", "pb1", "pb2", "qq"]
+                    An = [("i", P.real[x]) for x in ("pa", "pb")] + \
+                         [("e", t, nm) for t in tn for nm in (["nm", "nb"] if two else ["nm"])] + \
+                         [("e", "pa1", None), ("e", "c1", None)]
+                    explore_texts(Sn, sch_n, P, plist, 3, acc, mid_n, H.schema_digest(sch_n), tier, A=An)
+                    acc.extra["named_abstract_slot_explorations"] += 1
                 if hlen:
                     explore_histories(Sref, xml, P, plist, hlen if not pre else min(hlen, 2), acc, mid)
                 acc.extra["schemas"] += 1
@@ -331,7 +347,8 @@ def run(tier):
              "none / any earlier one, in every combination (%d schemas); 7 generated component packages (two importing each "
              "other, one importing itself - explored in their own text BFS -, pa, pb with "
              "an extender of an implementer, pc defining pa's type name differently, pd needing abstract type b) and 3 "
-             "non-components (package without component.xml, plain module, missing); texts: breadth-first search over "
+             "non-components (package without component.xml, plain module, missing); for the two-concrete-type schemas also a "
+             "variant with NAMED slots of the abstract types, explored with every type under those names; texts: breadth-first search over "
              "all sequences of '%%import P' (7 names) and '<t/>' (every type name, abstract ones, unknown) up to the "
              "depth bound, reference state = (container state, imports seen); histories: all sequences of <= h loads "
              "of 17 representative texts (every 'import X, use a type of Y' combination over three components) against one "
